@@ -63,3 +63,35 @@ func negFixnum(x slip.Fixnum) slip.Object {
 	}
 	return -x
 }
+
+// canonicalInteger returns bi as a fixnum if it fits in a fixnum and as a
+// bignum otherwise.
+func canonicalInteger(bi *big.Int) slip.Object {
+	if bi.IsInt64() {
+		return slip.Fixnum(bi.Int64())
+	}
+	return (*slip.Bignum)(bi)
+}
+
+// canonicalRational returns rat as an integer if the denominator is one and
+// as a ratio otherwise.
+func canonicalRational(rat *big.Rat) slip.Object {
+	if rat.IsInt() {
+		return canonicalInteger(rat.Num())
+	}
+	return (*slip.Ratio)(rat)
+}
+
+// canonicalNumber returns the canonical representation of the result of a
+// calculation, a bignum that fits in a fixnum becomes a fixnum and a ratio
+// with a denominator of one becomes an integer. All other values are
+// returned as is.
+func canonicalNumber(num slip.Object) slip.Object {
+	switch tn := num.(type) {
+	case *slip.Bignum:
+		num = canonicalInteger((*big.Int)(tn))
+	case *slip.Ratio:
+		num = canonicalRational((*big.Rat)(tn))
+	}
+	return num
+}
